@@ -27,12 +27,18 @@ func appendEfaceSlice(buf []byte, l []interface{}, marshal func(interface{}) ([]
 }
 
 func decodeLength(buf []byte, n *int) ([]byte, error) {
-	k, len := binary.Uvarint(buf)
-	if len <= 0 {
+	k, sz := binary.Uvarint(buf)
+	if sz <= 0 {
+		return nil, errors.New("bad length")
+	}
+	buf = buf[sz:]
+	// every counted element and every body byte takes at least one byte of the
+	// buffer, so a larger value can only come from corrupt input
+	if k > uint64(len(buf)) {
 		return nil, errors.New("bad length")
 	}
 	*n = int(k)
-	return buf[len:], nil
+	return buf, nil
 }
 
 func decodeBytes(buf []byte, body *[]byte) ([]byte, error) {
